@@ -124,6 +124,7 @@ func (x *fleetExec) chmap(e engine.Event, nd *knode, sig string) bool {
 		dst.model.Tainted = true
 		dst.model.NonUnit = nd.model.NonUnit
 		dst.model.ValTotal, dst.model.ValGran, dst.model.SumOverflow = nd.model.ValTotal, nd.model.ValGran, nd.model.SumOverflow
+		dst.model.PosOver, dst.model.NegOver = nd.model.PosOver, nd.model.NegOver
 		for _, it := range items {
 			v := it.V
 			if math.Abs(v) >= oldLo {
